@@ -192,8 +192,9 @@ def main():
             kani=kani_res or None,
             violations=violations[:10]),
         assumptions=spec['assumptions'], wall_s=round(time.time() - t0, 1), violations=len(violations))
-    os.makedirs(os.path.join(VERIF, 'evidence'), exist_ok=True)
-    json.dump(ev, open(os.path.join(VERIF, 'evidence', prop + '.json'), 'w'), indent=1, default=str)
+    evdir = os.environ.get('VERIF_EVIDENCE_DIR', os.path.join(VERIF, 'evidence'))  # the sweep tools redirect this; the checks never do
+    os.makedirs(evdir, exist_ok=True)
+    json.dump(ev, open(os.path.join(evdir, prop + '.json'), 'w'), indent=1, default=str)
 
     for role, kh in known_hits.items():
         log(f"KNOWN-FINDING: property={prop} role={role} e.g. {json.dumps(kh['example'], ensure_ascii=False)} ({kh['n']} counterexamples)")
